@@ -2,7 +2,7 @@
    Everything here is executable Gallina; no proofs. *)
 From Coq Require Import List NArith ZArith String Bool.
 Import ListNotations.
-From UV Require Import Py.Val Py.Str Py.Utf8 Py.Regex Py.UrlLib Gen.Patterns Ural.TrieDict Ural.Utils.
+From UV Require Import Py.Val Py.Str Py.Utf8 Py.Regex Py.UrlLib Gen.Patterns Ural.TrieDict Ural.Utils Ural.HostnameTrieSet.
 Open Scope string_scope.
 
 Definition opt_wrap (o : option val) : val :=
@@ -163,12 +163,34 @@ Definition do_utils (arg : val) : val :=
   | _ => vbad
   end.
 
+(* ---------------- HostnameTrieSet (C09) ---------------- *)
+Fixpoint hts_adds (e : env) (hs : list val) (t : hts) : res hts :=
+  match hs with
+  | [] => Ok t
+  | VS h :: r => match hts_add e h t with Ok t' => hts_adds e r t' | Exc x => Exc x end
+  | _ :: _ => Exc TypeError
+  end.
+
+Definition do_hts (arg : val) : val :=
+  match arg with
+  | VL [ev; VL adds; VL queries] =>
+      let e := env_of ev in
+      match hts_adds e adds hts_empty with
+      | Exc x => VErr (exn_name x)
+      | Ok t =>
+          VL [VZ (hts_len t); vstrs (hts_iter t);
+              VL (map (fun q => match q with VS u => vres VB (hts_match e u t) | _ => vbad end) queries)]
+      end
+  | _ => vbad
+  end.
+
 (* ---------------- dispatch ---------------- *)
 Definition table : list (str * (val -> val)) :=
   [ (lit "triedict", do_triedict);
     (lit "regex", do_regex);
     (lit "urllib", do_urllib);
-    (lit "utils", do_utils) ].
+    (lit "utils", do_utils);
+    (lit "hts", do_hts) ].
 
 Fixpoint find_fn (name : str) (l : list (str * (val -> val))) : option (val -> val) :=
   match l with
